@@ -406,6 +406,9 @@ def wf_corpus(tier, cfgs, sample_q=23, sample_t=211, **kw):
 def c03(tier):
     build(("release",))
     c = Check("C03", tier, "exploration")
+    # the rewriting rules with their own state machines: every enumerated literal / comment, formatted twice
+    mlstring_mc_and_replay(c, tier)
+    comment_mc_and_replay(c, tier)
     tasks = wf_corpus(tier, Q(tier, "six", "wide")) + texts_tasks(dirblock_programs(c, tier), "six", chunks=32, cfg_mode="rotate", sample_every=Q(tier, 997, 9973))
     tasks += mlshape_tasks(tier, "six", cfg_mode="rotate", sample_every=Q(tier, 997, 9973))
     c.explore(tasks, "wf", ["C03"], sample_cap=Q(tier, 150, 800))
@@ -420,6 +423,16 @@ def c03(tier):
         w = cli.SAMPLE_WORDS.get(codec, "x")
         body = t + f"\n// {w} {w} {w}\nSomeIdentifier := 'a {w} string' + AnotherIdentifier + '{w}' + YetAnotherOne;\n"
         scen.append({"text": body, "option": label, "codec": codec, "bom": list(bom), "cfg": {"wrap_column": rnd.choice([40, 60, 80, 120])}})
+    # batches on one or two worker threads: what was just written is accepted next to files that are not formatted
+    bsc = [{"n": [6, 15, 16, 30][i % 4], "threads": [1, 2, 1, 16][i % 4], "seed": SEED * 13 + i} for i in range(Q(tier, 8, 60))]
+    for sc, (problems, skipped) in zip(bsc, cli.run_scenarios(lambda i, sc: cli.run_idem_batch_scenario(i, sc, texts), bsc, threads=4)):
+        if skipped:
+            continue
+        c.evaluations += 1
+        c.nontrivial += 1
+        c.extra["cli_batches"] = c.extra.get("cli_batches", 0) + 1
+        for p in problems:
+            c.add_violation({"prop": "C03", "clause": p["clause"], "detail": p["detail"], "case": {"label": "cli-batch", "scenario": sc}, "confirmed_by_tlc": True})
     res = cli.run_scenarios(cli.run_idem_scenario, scen)
     ran = 0
     for sc, (problems, skipped) in zip(scen, res):
